@@ -102,6 +102,14 @@ func ScopeMiddleware(provider godi.Provider, opts ...Option) gin.HandlerFunc {
 		opt(cfg)
 	}
 
+	// A nil handler means the default one
+	if cfg.ErrorHandler == nil {
+		cfg.ErrorHandler = defaultConfig().ErrorHandler
+	}
+	if cfg.CloseErrorHandler == nil {
+		cfg.CloseErrorHandler = defaultConfig().CloseErrorHandler
+	}
+
 	return func(c *gin.Context) {
 		scope, err := provider.CreateScope(c.Request.Context())
 		if err != nil {
